@@ -6,7 +6,7 @@ COMMON_TB = [
 
 PROPS = {
     "C01": dict(
-        claim="Lean 4 model of the CBE encoder and decoder (CE/Cbe). Theorem structural_document_roundtrip: for EVERY stream, of any length and nesting, made of containers, Booleans, null, padding, comments, integers of every width and sign in all three event forms, big integers of up to 8192 bits, markers / references / records / record types with their identifiers, UIDs, strings and resource identifiers of any length, and typed arrays of every byte-multiple element kind sent whole (short form and chunk-header form), the encoder model fails nowhere, the decoder model reads the encoder's bytes back without error and to the end, and the events it delivers carry the same data (canon) - by induction over the stream, each step a prefix-code lemma (one decoder step reads back exactly this event and leaves the following bytes untouched: decodeOne_simple); per-event prefix-code round trips with arbitrary suffix for every integer width, ULEB128 and little-endian fields. "
+        claim="Lean 4 model of the CBE encoder and decoder (CE/Cbe). Theorem structural_document_roundtrip: for EVERY stream, of any length and nesting, made of containers, Booleans, null, padding, comments, integers of every width and sign in all three event forms, big integers of up to 8192 bits, markers / references / records / record types with their identifiers, UIDs, strings and resource identifiers of any length, and typed arrays of every byte-multiple element kind sent whole (short form and chunk-header form), the encoder model fails nowhere, the decoder model reads the encoder's bytes back without error and to the end, and the events it delivers carry the same data (canon) - by induction over the stream, each step a prefix-code lemma (one decoder step reads back exactly this event and leaves the following bytes untouched: decodeOne_simple); corollary structural_encoding_determines_data: two such documents with the same bytes carry the same data; per-event prefix-code round trips with arbitrary suffix for every integer width, ULEB128 and little-endian fields. "
               "Correspondence of model and implementation (encoder bytes, decoder events) "
               "on generated rules-valid streams; the property oracle canon(decoded)=canon(original) is evaluated by the Lean driver on the implementation's own output",
         note="partial: the stream-level theorem covers the structural fragment; floats, decimals, times, bit arrays, media, custom types and arrays sent in several chunks (the encoder's array state) are covered by correspondence + oracle only. "
